@@ -235,6 +235,7 @@ class _Run:
         self.max_depth = depth
         self.norm = Norm(w.repo, w.typer)
         self.norm.on_call = self.on_call
+        self.norm.on_yield = lambda v, node: self.emit("yield", v, node.lineno)
         self.events: List[Event] = []
         self.unknown: List[str] = []
         self.cur: Ctx
@@ -600,7 +601,10 @@ class _Run:
         env = self.cur.scope.env
         for n in names:
             if n in env:
+                ty = self.norm.type_of(env[n], self.cur.scope) or self.cur.scope.var_type(n)
                 env[n] = self.norm.fresh_lv(n)
+                if ty is not None:
+                    self.norm.var_types[env[n]] = ty   # a loop-carried variable keeps the type of its initial value
 
     def _accumulators(self, body: List[ast.stmt]) -> Dict[str, ast.AugAssign]:
         """names only ever updated by one top-level unconditional `n += expr` in the loop body."""
